@@ -177,6 +177,29 @@ func validateTypeRestrictions(typesys *typesystem.TypeSystem, tk *openfgav1.Tupl
 
 // validateCondition returns an error if the condition of the tuple is required but not present,
 // or if the tuple provides a condition but it is invalid according to the model.
+// restrictionMatchesUser reports whether the type restriction is for the kind of user given:
+// an object, a typed wildcard, or a userset of the restriction's relation.
+func restrictionMatchesUser(restriction *openfgav1.RelationReference, user, userType, userRelation string) bool {
+	if restriction.GetType() != userType {
+		return false
+	}
+
+	if restriction.GetRelationOrWildcard() != nil {
+		if restriction.GetRelation() != "" && restriction.GetRelation() != userRelation {
+			return false
+		}
+
+		if restriction.GetWildcard() != nil && !tuple.IsTypedWildcard(user) {
+			return false
+		}
+
+		return true
+	}
+
+	// A restriction on the plain type is neither for wildcards nor for usersets.
+	return !tuple.IsTypedWildcard(user) && userRelation == ""
+}
+
 func validateCondition(typesys *typesystem.TypeSystem, tk *openfgav1.TupleKey) error {
 	objectType := tuple.GetType(tk.GetObject())
 	userType := tuple.GetType(tk.GetUser())
@@ -193,20 +216,7 @@ func validateCondition(typesys *typesystem.TypeSystem, tk *openfgav1.TupleKey) e
 				continue
 			}
 
-			if directlyRelatedType.GetType() != userType {
-				continue
-			}
-
-			if directlyRelatedType.GetRelationOrWildcard() != nil {
-				if directlyRelatedType.GetRelation() != "" && directlyRelatedType.GetRelation() != userRelation {
-					continue
-				}
-
-				if directlyRelatedType.GetWildcard() != nil && !tuple.IsTypedWildcard(tk.GetUser()) {
-					continue
-				}
-			} else if tuple.IsTypedWildcard(tk.GetUser()) {
-				// This is a wildcard tuple but the directlyRelatedType tuple is not for wildcard.
+			if !restrictionMatchesUser(directlyRelatedType, tk.GetUser(), userType, userRelation) {
 				continue
 			}
 
@@ -233,7 +243,10 @@ func validateCondition(typesys *typesystem.TypeSystem, tk *openfgav1.TupleKey) e
 
 	validCondition := false
 	for _, directlyRelatedType := range typeRestrictions {
-		if directlyRelatedType.GetType() == userType && directlyRelatedType.GetCondition() == tk.GetCondition().GetName() {
+		// The condition must be allowed by a type restriction that matches the user's shape:
+		// `[user:* with cond]` does not allow `user:anne with cond`.
+		if directlyRelatedType.GetCondition() == tk.GetCondition().GetName() &&
+			restrictionMatchesUser(directlyRelatedType, tk.GetUser(), userType, userRelation) {
 			validCondition = true
 			break
 		}
